@@ -167,6 +167,8 @@ def gen(seed, index, tier):
         sc["focus"] = "io" if not menu_storm else rng.choice(["io", "cache", "mixed"])
         sc["trace_hot"] = False
         sc["storm"] = True
+        if not menu_storm and rng.random() < 0.6:
+            sc["barename"] = True
     elif st == "ForkingTCPServer" and rng.random() < 0.06:
         # a flood: more simultaneous children than ForkingMixIn.max_children (40), so that the accept
         # loop has to reap with the blocking waitpid(-1, 0) path while clients keep arriving
@@ -233,6 +235,12 @@ def execute(sc, tape=None):
     with harness.Scratch("c14") as base:
         root = os.path.join(base, "root")
         world.build(root, c20.make_spec(**sc["world"]))
+        if sc.get("barename"):
+            # a regular file under the bare name of the ZIP index cache (what the gdbm / ndbm back ends create; with
+            # dbm.dumb it takes an administrator's touch): the saved index is then read back, also while another
+            # worker is rewriting it
+            for z in ("arc.zip", "arc2.zip"):
+                simfs.write_file(os.path.join(root, ".cache.pygopherd.zip3." + z), b"", sched.EPOCH - 10)
         refroot = os.path.join(base, "ref")
         harness.copy_tree(root, refroot)
         refs = {}
